@@ -121,6 +121,19 @@ class Fold(ast.NodeTransformer):
             c.args = new
         return c
 
+    def visit_JoinedStr(self, j: ast.JoinedStr):
+        self.generic_visit(j)
+        parts = []
+        for v in j.values:
+            if isinstance(v, ast.Constant) and isinstance(v.value, str):
+                parts.append(v.value)
+            elif isinstance(v, ast.FormattedValue) and isinstance(v.value, ast.Constant) and isinstance(v.value.value, str) \
+                    and v.conversion == -1 and v.format_spec is None:
+                parts.append(v.value.value)
+            else:
+                return j
+        return ast.copy_location(ast.Constant(value="".join(parts)), j)
+
     def visit_UnaryOp(self, u: ast.UnaryOp):
         self.generic_visit(u)
         if isinstance(u.op, ast.Not) and self._const(u.operand) is not None:
@@ -687,6 +700,24 @@ def _inline_into(fn: ast.FunctionDef, cls: Optional[str], helpers, stats: Dict[s
                         new_body += st2
                     elif st2 is not None:
                         new_body.append(st2)
+                # locals of the inlined body bound once to a literal: use the literal (e.g. an attribute name built from a parameter)
+                cbind: Dict[str, ast.Constant] = {}
+                cnt: Dict[str, int] = {}
+                for st in new_body:
+                    for n_ in ast.walk(st):
+                        if isinstance(n_, ast.Name) and isinstance(n_.ctx, ast.Store):
+                            cnt[n_.id] = cnt.get(n_.id, 0) + 1
+                for st in new_body:
+                    if isinstance(st, ast.Assign) and len(st.targets) == 1 and isinstance(st.targets[0], ast.Name) and isinstance(st.value, ast.Constant) \
+                            and cnt.get(st.targets[0].id) == 1 and st.targets[0].id not in caller_names:
+                        cbind[st.targets[0].id] = st.value
+                if cbind:
+                    new_body = [Fold().visit(Subst(cbind).visit(st)) for st in new_body
+                                if not (isinstance(st, ast.Assign) and isinstance(st.targets[0], ast.Name) and st.targets[0].id in cbind)]
+                    flat = []
+                    for st in new_body:
+                        flat += st if isinstance(st, list) else [st]
+                    new_body = [st for st in flat if st is not None] or [ast.copy_location(ast.Pass(), s)]
                 for st in new_body:
                     for n_ in ast.walk(st):
                         if hasattr(n_, "lineno"):
